@@ -6,7 +6,10 @@ replica : process 1 runs up to the crash and dies; only the store (b64 strings) 
           PYTHONHASHSEED) restores from the store and receives the same remaining ops.
 Oracle  : (i) dump right after restore equal; (ii) every later op yields equal canonical results.
 """
+import copy
+
 from . import engine, gen, procs
+from . import recipes as R
 
 ALT_HASHSEED = 4242
 POLY_OPS = ["select", "select", "select", "dump", "to_b64", "poly_b64_rt"]
@@ -215,6 +218,29 @@ def gen_c17(rng, oracle, index, tier="quick"):
     for it in sorted(g.its):
         if rng.random() < 0.7:
             g.emit({"op": "drain", "it": it})
+    # ---- a freshly built equal object meets the restored one (hash / equality must agree in the new process)
+    rprops = [h for h in restored if h in g.order and g.handles[h]["kind"] in ("prop", "cfg") and g.recipe_of(h) is not None
+              and not R.refs(g.recipe_of(h))]
+    if rprops and rng.random() < 0.35:
+        h = rng.choice(rprops)
+        c = g.fresh()
+        g.emit({"op": "new", "h": c, "recipe": copy.deepcopy(g.recipe_of(h))}, {"twin_of": h})
+        if c in g.handles:
+            g.emit({"op": "call", "h": h, "m": "eq", "a": {"other": c}})
+            g.events.append(("eq", "post:restored-vs-fresh-clone", ()))
+            g.hit("c17:restored-object-compared-with-freshly-built-equal-one")
+    # ---- the same string is unpacked once more, late, after the first copy has lived some history
+    late = [(key, src, kind) for key, src, kind in keys if kind == "prop"]
+    if late and rng.random() < 0.4:
+        key, src, kind = rng.choice(late)
+        h2 = g.fresh("r")
+        g.emit({"op": "restore", "key": key, "h": h2, "src": src, "kind": kind}, {"base": src, "src": src})
+        g.events.append(("restore", "late:" + mode, ()))
+        if h2 in g.handles:
+            g.hit("c17:late-second-unpack-of-the-same-string")
+            op, tags = g.op_for(h2, rng.choice(["to_text", "flatten", "to_ge_polyhedron", "evaluate", "errors"]))
+            g.emit(op)
+            g.events.append((op["m"], "post:late", tuple(sorted(tags))))
     # ---- fault: the caller edits one restored polyhedron in place, then unpacks the same string again
     rpolys = [(h, key) for h in restored for key, src, kind in keys if kind == "poly" and g.handles[h].get("src") == src]
     if rpolys and rng.random() < 0.5:
